@@ -59,16 +59,16 @@ impl Profile {
 	/// histories per shard
 	pub fn cases(&self, tier: Tier) -> u64 {
 		match self {
-			Profile::C01 => tier.pick(24, 480),
-			Profile::C03 => tier.pick(24, 400),
-			Profile::C04 => tier.pick(20, 380),
-			Profile::C06 => tier.pick(6, 60),
-			Profile::C07 => tier.pick(24, 480),
-			Profile::C08 => tier.pick(24, 480),
-			Profile::C09 => tier.pick(6, 90),
-			Profile::C10 => tier.pick(20, 400),
-			Profile::C11 => tier.pick(24, 480),
-			Profile::C14 => tier.pick(16, 300),
+			Profile::C01 => tier.pick(400, 6000),
+			Profile::C03 => tier.pick(300, 4000),
+			Profile::C04 => tier.pick(400, 6000),
+			Profile::C06 => tier.pick(6, 54),
+			Profile::C07 => tier.pick(400, 6000),
+			Profile::C08 => tier.pick(200, 3000),
+			Profile::C09 => tier.pick(12, 150),
+			Profile::C10 => tier.pick(90, 1400),
+			Profile::C11 => tier.pick(70, 1000),
+			Profile::C14 => tier.pick(60, 900),
 		}
 	}
 
@@ -117,7 +117,6 @@ impl Profile {
 				.require("iter_direction_changes", 20)
 				.require("iter_after_commit_while_open", 20)
 				.require("tree_depth_ge2", 1)
-				.require("fsck_btree_runs", 1)
 				.assume("a never-positioned iterator is not exercised (C04 does not state its behaviour)"),
 			Profile::C06 => Spec::new("C06", "exploration", "A case is one deterministic sweep over value lengths around every size-class capacity (cap-1, cap, cap+1 for each of the 255 classes, the single/multi-part boundary, multiples of the part payload +-1 up to 2^20+4096), compressible and incompressible, for one (index kind, ref-count header, compression, threshold) configuration; each value is written, read back at random pipeline stages, overwritten by values of other sizes and removed. evaluations = value comparisons; distinct_nontrivial = distinct (configuration, stored length) pairs read back bit-exact plus distinct (old class -> new class) overwrite transitions.")
 				.require("lengths_checked", 500)
